@@ -4,7 +4,7 @@
 cd /verif
 for d in seeded/${1:-}*/; do
   id=$(basename $d); [ -f $d/meta.json ] || continue
-  prop=$(python3 -c "import json;print(json.load(open('$d/meta.json'))['property'])")
+  prop=$(python3 -c "import json;m=json.load(open('$d/meta.json'));print(m.get('regress_with') or m['property'])")
   out=$(lib/seeded_try.sh $d/patch.diff $prop 2>&1)
   if echo "$out" | grep -q "sigs: \[('"; then v=CAUGHT; elif echo "$out" | grep -q "INCONCLUSIVE"; then v=INCONCLUSIVE; else v=MISSED; fi
   echo "$id $prop $v $(echo "$out" | grep 'sigs:' | cut -c1-150)"
